@@ -380,6 +380,7 @@ func (w *Worker) runC16Case(idx int64) {
 	weights := swarmWeights(g.R)
 	w.St.Cases++
 	w.St.OpCount[spec.Name]++
+	resetInputBufs()
 	simrt.RestoreGlobals() // every case starts from the package state of a fresh process
 
 	ref := execRun(spec, base, simrt.NewAscOrder())
